@@ -40,9 +40,9 @@ def load_known():
             what = parts[1] if len(parts) > 1 else ''
             pid = None
             key = None
-            for tok in head.split(' ', 1):
-                if tok.startswith('property='):
-                    pid = tok[len('property='):]
+            first = head.split(' ', 1)[0]
+            if first.startswith('property='):
+                pid = first[len('property='):]
             if ' key=' in head:
                 key = head.split(' key=', 1)[1].strip()
             if pid and key:
